@@ -157,7 +157,7 @@ pub fn expect_version_3_1(opts: &CramOpts) -> bool {
     opts.version == 2 || matches!(opts.encoder % N_ENCODERS, 6 | 7 | 8)
 }
 
-fn encoder_map(opts: &CramOpts) -> Option<cram::container::BlockContentEncoderMap> {
+pub(crate) fn encoder_map(opts: &CramOpts) -> Option<cram::container::BlockContentEncoderMap> {
     use cram::codecs::{Encoder, aac, rans_4x8, rans_nx16};
     use cram::container::BlockContentEncoderMap;
     use cram::container::compression_header::data_series_encodings::DataSeries;
